@@ -32,7 +32,7 @@ CFG = {
                   "replicas only (the model has no notion of a handler waiting for its disk).",
     "harness": "c06",
     "replay_by_seed": True,
-    "n": {"quick": 900, "thorough": 30000},
+    "n": {"quick": 1200, "thorough": 30000},
     "rule": "as C01, each case followed by the synchronous suffix; non-trivial = distinct op whose outcome class differs from the "
             "modal class",
     "trusted": ["hand-written replica model", "simulation scheduler as the fair network"],
